@@ -3,9 +3,9 @@
    byte positions) give the same result — the same emitted text for the same digest argument,
    or the same error up to the positions it carries. *)
 From Coq Require Import List Arith NArith Lia Bool.
-From Kiki Require Import Base.Ord Base.Chars Data DataProofs Lex.Model LR.Driver LR.Payload Front.Cst2Ast Front.Parse
+From Kiki Require Import Base.Ord Base.Chars Data DataProofs Lex.Model Lex.NoPanic Lex.Spans Lex.Spec LR.Driver LR.Grammar LR.Inv LR.Sound LR.Validate LR.ValidateProofs LR.Payload Front.Cst2Ast Front.Parse Front.KikiValid
   Ast.Validate Ast.ValidateProofs Build.Machine Build.Table Emit.Emit Emit.Positions Ast.Positions Front.Positions Pipeline.
-From Kiki Require Gen.Template.
+From Kiki Require Gen.Template Gen.KikiAnn.
 Import ListNotations.
 
 Lemma max_rhs_erase rs : max_rhs (map erase_rule rs) = max_rhs rs.
@@ -87,6 +87,42 @@ Proof.
   destruct (table_to_rust _ _ _ t v digest); reflexivity.
 Qed.
 
+(* ---------- the text of a syntax error is the text of the offending token ---------- *)
+
+Lemma blen_prefix_inj (a : str) : forall b x y, a ++ x = b ++ y -> blen a = blen b -> a = b /\ x = y.
+Proof.
+  induction a as [|c a IH]; intros b x y H Hl.
+  - destruct b as [|d b]; [auto|]. cbn [blen] in Hl. pose proof (len_utf8_pos d). lia.
+  - destruct b as [|d b]; [cbn [blen] in Hl; pose proof (len_utf8_pos c); lia|].
+    cbn [app] in H. injection H as -> H. cbn [blen] in Hl. destruct (IH b x y H ltac:(lia)) as (-> & ->). auto.
+Qed.
+
+Lemma token_start_pos t s : token_start t = Ok s -> s = tok_pos t.
+Proof.
+  destruct t as [p|i|i|a|p|p|p|p|p|p|p|p|p|p|p|p|p]; cbn; try (intros H; injection H as <-; reflexivity).
+  destruct (N.ltb (ti_dpos i) 1); [discriminate|]. intros H; injection H as <-. reflexivity.
+Qed.
+
+Lemma content_len_lexeme t : token_content_len t = blen (lexeme t).
+Proof. destruct t; reflexivity. Qed.
+
+Lemma lexeme_erase t : lexeme (erase_tok t) = lexeme t.
+Proof. destruct t; reflexivity. Qed.
+
+Lemma unexpected_err_text src toks t : tokenize src = Ok toks -> In t toks ->
+  exists s e, unexpected_to_err (Some t) src = Ok (EParse s (lexeme t) e).
+Proof.
+  intros Htok Hin. destruct (tokenize_spans src toks Htok t Hin) as (pre & mid & post & Hsrc & Hs & Hl).
+  destruct (tokens_are_where_they_say src toks Htok t Hin) as (pre' & post' & Hsrc' & Hp).
+  pose proof (token_start_pos t _ Hs) as Hpos. rewrite Hp in Hpos.
+  assert (Hpre : pre = pre' /\ mid ++ post = lexeme t ++ post').
+  { apply blen_prefix_inj; [rewrite <- Hsrc, <- Hsrc'; reflexivity|exact Hpos]. }
+  destruct Hpre as (-> & Hrest).
+  assert (Hmid : mid = lexeme t) by (apply (blen_prefix_inj mid (lexeme t) post post' Hrest); rewrite <- Hl; apply content_len_lexeme).
+  subst mid. unfold unexpected_to_err. rewrite Hs. cbn [bind]. rewrite Hl.
+  rewrite (slice_app' src pre' (lexeme t) post _ _ Hsrc eq_refl eq_refl). cbn. eauto.
+Qed.
+
 (* C16 for syntactically valid files: same token contents, same result *)
 Theorem same_tokens_same_result ho digest src1 src2 toks1 toks2 :
   tokenize src1 = Ok toks1 -> tokenize src2 = Ok toks2 ->
@@ -106,5 +142,32 @@ Proof.
     injection A2 as A2. rewrite <- (back_erase ho digest ast1), <- (back_erase ho digest ast2), A2. reflexivity.
   - exfalso. apply (Hnr tok1). reflexivity.
   - injection P2 as ->. reflexivity.
+  - reflexivity.
+Qed.
+
+(* C16, every source: same token contents, same result — syntax errors included *)
+Theorem same_tokens_same_result_always ho digest src1 src2 toks1 toks2 :
+  tokenize src1 = Ok toks1 -> tokenize src2 = Ok toks2 ->
+  map erase_tok toks1 = map erase_tok toks2 ->
+  rerase same (generate_model ho digest src1) = rerase same (generate_model ho digest src2).
+Proof.
+  intros H1 H2 He.
+  assert (Hlen : length toks2 = length toks1) by (rewrite <- (map_length erase_tok toks2), <- He; apply map_length).
+  set (fuel := front_fuel (length toks1)).
+  destruct (parse token_kind kiki_ptable fuel toks1) as [t1|tok1|s1|] eqn:E1;
+    try (apply (same_tokens_same_result ho digest src1 src2 toks1 toks2 H1 H2 He); fold fuel; rewrite E1; discriminate).
+  rewrite !generate_model_unfold, H1, H2. cbn [bind]. rewrite Hlen. fold fuel.
+  pose proof (parse_erase fuel toks1) as P1. pose proof (parse_erase fuel toks2) as P2. rewrite He in P1. rewrite P1 in P2. clear P1.
+  rewrite E1 in P2. destruct (parse token_kind kiki_ptable fuel toks2) as [t2|tok2|s2|] eqn:E2; cbn [omap] in P2; try discriminate.
+  injection P2 as P2. unfold front_parse. rewrite E1, E2.
+  pose proof (validate_Inv2 kiki_ptable Gen.KikiAnn.kiki_ann Gen.KikiAnn.kiki_ft kiki_tables_valid) as Hi2.
+  destruct (reject_is_input_token token_kind kiki_ptable _ Hi2 fuel toks1 tok1 (all_tokens_bounded toks1) E1) as (c1 & r1 & Hw1 & Hk1).
+  destruct (reject_is_input_token token_kind kiki_ptable _ Hi2 fuel toks2 tok2 (all_tokens_bounded toks2) E2) as (c2 & r2 & Hw2 & Hk2).
+  destruct tok1 as [k1|], tok2 as [k2|]; cbn [option_map] in P2; try discriminate.
+  - injection P2 as P2.
+    assert (Hin1 : In k1 toks1) by (rewrite Hw1; apply in_or_app; right; destruct r1; [discriminate|cbn in Hk1; injection Hk1 as ->; left; reflexivity]).
+    assert (Hin2 : In k2 toks2) by (rewrite Hw2; apply in_or_app; right; destruct r2; [discriminate|cbn in Hk2; injection Hk2 as ->; left; reflexivity]).
+    destruct (unexpected_err_text src1 toks1 k1 H1 Hin1) as (s1 & e1 & ->). destruct (unexpected_err_text src2 toks2 k2 H2 Hin2) as (s2 & e2 & ->).
+    cbn [bind rerase erase_err]. rewrite <- (lexeme_erase k1), <- (lexeme_erase k2), P2. reflexivity.
   - reflexivity.
 Qed.
